@@ -115,3 +115,13 @@ def _replace(ip, r, args, kw, node):
 
 R.METHODS[("Param", "replace")] = _replace
 R.METHODS[("Sig", "replace")] = _replace
+
+# ---- ghost counting functions on a valid signature (kinds are sorted by rank)
+npo = declare_pred("npo", L.V, L.I)        # number of positional-only parameters
+npos = declare_pred("npos", L.V, L.I)      # number of PO + POK parameters = index of the first *args / kw-only / **kw parameter
+_rk = lambda s_, i_: kind_rank(pkind(L.nth(params_of(s_), i_)))
+L.axiom(T, "npo-range", L.FA(s, z3.Implies(is_valid_sig(s), z3.And(0 <= npo(s), npo(s) <= npos(s), npos(s) <= L.len_(params_of(s)))), [npo(s)], ))
+L.axiom(T, "npos-range", L.FA(s, z3.Implies(is_valid_sig(s), z3.And(0 <= npo(s), npo(s) <= npos(s), npos(s) <= L.len_(params_of(s)))), [npos(s)], ))
+L.axiom(T, "npo-def", L.FA([s, i], z3.Implies(z3.And(is_valid_sig(s), 0 <= i, i < L.len_(params_of(s))),
+                                                z3.And((i < npo(s)) == (_rk(s, i) == 0), (i < npos(s)) == (_rk(s, i) <= 1))),
+                            [L.nth(params_of(s), i)]))
